@@ -1,0 +1,22 @@
+//! Verification-only scheduling points (compiled only with `--cfg nervusdb_verif`).
+//!
+//! `point(name)` is a no-op unless a test harness installed a hook; the harness uses it to
+//! force a particular interleaving of the lock-free windows between publication steps.
+use std::sync::{Arc, RwLock};
+
+pub type Hook = Arc<dyn Fn(&str) + Send + Sync>;
+
+static HOOK: RwLock<Option<Hook>> = RwLock::new(None);
+
+/// Installs (or removes, with `None`) the process-wide hook.
+pub fn install(hook: Option<Hook>) {
+    *HOOK.write().unwrap_or_else(|e| e.into_inner()) = hook;
+}
+
+/// A named scheduling point. Calls the installed hook, if any, on the current thread.
+pub fn point(name: &str) {
+    let hook = HOOK.read().unwrap_or_else(|e| e.into_inner()).clone();
+    if let Some(h) = hook {
+        h(name);
+    }
+}
